@@ -21,7 +21,8 @@ def case_array(case):
         assert k == 0 and all(v is not None for v in vals)
         arr = np.array([int(v) for v in vals], dtype=dt).reshape(shape)
     else:
-        arr = np.array([np.nan if v is None else v / float(2 ** k) for v in vals], dtype=dt).reshape(shape)
+        den = float(case.get('den') or 2 ** k)
+        arr = np.array([np.nan if v is None else v / den for v in vals], dtype=dt).reshape(shape)
     layout = case.get('layout', 'C')
     if layout == 'F':
         arr = np.asfortranarray(arr)
@@ -87,13 +88,13 @@ def adjacency_table(case):
 
 def criteria_functions(case):
     k = case.get('scale', 0)
-    s = float(2 ** k)
+    s = float(case.get('den') or 2 ** k)
     fs = []
     for c in case.get('crit', []):
         if c[0] == 'peak':
-            fs.append(pruning.min_peak(c[1] / s))
+            fs.append(pruning.min_peak(c[1] / s if s != 1 else c[1]))
         elif c[0] == 'sum':
-            fs.append(pruning.min_sum(c[1] / s))
+            fs.append(pruning.min_sum(c[1] / s if s != 1 else c[1]))
         elif c[0] == 'seeds':
             shape = tuple(case['shape'])
             coords = np.unravel_index(np.array(c[1], dtype=int), shape)
@@ -109,11 +110,14 @@ def criteria_functions(case):
 
 def compute_kwargs(case):
     k = case.get('scale', 0)
-    s = float(2 ** k)
+    s = float(case.get('den') or 2 ** k)
     kw = {}
     isint = np.dtype(case.get('dtype', 'float64')).kind in 'iu'
     if case.get('minv') is not None:
         kw['min_value'] = int(case['minv']) if isint else case['minv'] / s
+        if isint and case.get('minv_frac'):
+            # fractional threshold on integer data: v > m + 0.5  <=>  v > m  for integers
+            kw['min_value'] = int(case['minv']) + 0.5
     d = case.get('delta', 0)
     kw['min_delta'] = int(d) if (isint and k == 0) else d / s
     num, den = case.get('npix', [0, 1])
@@ -151,3 +155,13 @@ def compute_obs(case):
     order = [ravel(shape, c) for c in d._verif_order]
     labels = [int(x) for x in d.index_map.ravel().tolist()]
     return d, {'order': order, 'labels': labels, 'structs': structs_view(d, shape)}
+
+
+def impl_hierarchy(d, shape):
+    """Canonical (own pixel set, smallest own pixel of the parent or None)."""
+    out = []
+    for s in d:
+        own = tuple(sorted(ravel(shape, i) for i in s._indices))
+        par = None if s.parent is None else min(ravel(shape, i) for i in s.parent._indices)
+        out.append((own, par))
+    return sorted(out)
